@@ -153,6 +153,7 @@ def brentsroot(f, bounds, tol=None, verbose=False, return_interval=False):
         fs = f(s)
         numiter += 1
         d = c
+        c, fc = b, fb
 
         if (fa < 0 and fs > 0) or (fa > 0 and fs < 0):
             b = s
@@ -170,6 +171,9 @@ def brentsroot(f, bounds, tol=None, verbose=False, return_interval=False):
     if verbose:
         with numpy.printoptions(precision=17, linewidth=200):
             print(f"[{numiter}] a={D.ar_numpy.to_numpy(a)}, b={D.ar_numpy.to_numpy(b)}, f(a)={D.ar_numpy.to_numpy(fa)}, f(b)={D.ar_numpy.to_numpy(fb)}")
+    if fb == 0:
+        # an exact zero: the bracket is the point itself
+        a, fa = b, fb
     # a root is certified either by a small residual or by a sign change bracketed to within the (relative) tolerance;
     # the residual alone depends on the scale of f and fails for steep or discontinuous functions
     success = (D.ar_numpy.abs(f(b)) <= tol) | (~(((fa > 0) & (fb > 0)) | ((fa < 0) & (fb < 0))) & (D.ar_numpy.abs(b - a) <= tol * D.ar_numpy.maximum(1.0, D.ar_numpy.abs(b))))
@@ -296,6 +300,7 @@ def brentsrootvec(f, bounds, tol=None, verbose=False, return_interval=False, acc
         fs = _f(s, conv)
         numiter[conv] = numiter[conv] + 1
         d = c
+        c, fc = D.ar_numpy.where(conv, b, c), D.ar_numpy.where(conv, fb, fc)
 
         mask = ((fa < 0) & (fs > 0)) | ((fa > 0) & (fs < 0))
         mask[not_conv] = False
@@ -319,6 +324,9 @@ def brentsrootvec(f, bounds, tol=None, verbose=False, return_interval=False, acc
     if verbose:
         with numpy.printoptions(precision=17, linewidth=200):
             print(f"[{numiter}] a={D.ar_numpy.to_numpy(a)}, b={D.ar_numpy.to_numpy(b)}, f(a)={D.ar_numpy.to_numpy(fa)}, f(b)={D.ar_numpy.to_numpy(fb)}, conv={D.ar_numpy.to_numpy(not_conv)}")
+    # an exact zero: the bracket is the point itself
+    mask = fb == 0
+    a[mask], fa[mask] = b[mask], fb[mask]
     true_conv = ~(((fa > 0) & (fb > 0)) | ((fa < 0) & (fb < 0))) & (true_conv | (D.ar_numpy.abs(b - a) <= tol * D.ar_numpy.maximum(1.0, D.ar_numpy.abs(b))))
     if return_interval:
         return b, true_conv, (a, b)
